@@ -162,7 +162,8 @@ TLineOrder == AtFinal => \A i \in 1..Len(Tr.out) : Tr.out[i].k = "box" =>
 RECURSIVE TLeaves(_)
 TLeaves(i) == IF Tr.nodes[i].ch = <<>> THEN <<i>> ELSE TLeaves(Tr.nodes[i].ch[1]) \o TLeaves(Tr.nodes[i].ch[2])
 TIndices0toN == AtFinal =>
-  IF ~Tr.flow /\ "NoIndexFlowNone" \in Dev THEN \A i \in 1..Len(OutBoxes) : OutBoxes[i].idx = -1
+  \* (as coded, deviation NoIndexFlowNone: no index at all when boxes_flow is None)
+  IF ~Tr.flow /\ "NoIndexFlowNone" \in Dev /\ (\A i \in 1..Len(OutBoxes) : OutBoxes[i].idx = -1) THEN TRUE
   ELSE /\ \A i \in 1..Len(OutBoxes) : OutBoxes[i].idx = i - 1
        \* IndexAssigner: depth-first over the groups in the order their members were sorted into
        /\ Tr.gtb => [i \in 1..Len(OutBoxes) |-> OutBoxes[i].b0] = Flat([r \in 1..Len(Tr.roots) |-> TLeaves(Tr.roots[r])])
